@@ -40,6 +40,21 @@ E_OOB = 1
 
 
 # ------------------------------------------------------------------ generation
+_FORMS = ["list", "tuple", "gen", "iter", "map"]   # the cell list may be any iterable, also a one-shot one
+
+
+def _as_form(cells, form):
+    if form == "tuple":
+        return tuple(cells)
+    if form == "gen":
+        return (c for c in cells)
+    if form == "iter":
+        return iter(list(cells))
+    if form == "map":
+        return map(lambda c: c, cells)
+    return list(cells)
+
+
 def _queries_all(w, h, rmax):
     qs = []
     for x in range(w):
@@ -112,7 +127,8 @@ def gen_cases(rng, tier):
         extra = []
         if rng.random() < 0.3:
             cl = [[rng.randrange(w), rng.randrange(h)] for _ in range(rng.randint(0, 4))]
-            extra.append(["contents", cl])
+            # the orthogonal grids' accept_tuple_argument needs len() and indexing: sized sequences only there
+            extra.append(["contents", cl, rng.choice(["list", "tuple"])])
         if rng.random() < 0.1:
             # out-of-bounds position: rejected, never cached
             extra.append(["nbhd", w + rng.randint(0, 2), rng.randrange(h), True, False, 1, "get"])
@@ -163,7 +179,10 @@ def _gen_net(rng, tier):
         agents = [[k + 1, rng.randrange(n)] for k in range(rng.randint(0, n + 2))]
         ops = []
         for _ in range(rng.randint(2, 12)):
-            ops.append([rng.choice(["nbhd", "nbrs"]), rng.randrange(n), rng.random() < 0.5, rng.randint(1, n + 1)])
+            if rng.random() < 0.25:
+                ops.append(["contents", [rng.randrange(n) for _ in range(rng.randint(0, 4))], rng.choice(_FORMS)])
+            else:
+                ops.append([rng.choice(["nbhd", "nbrs"]), rng.randrange(n), rng.random() < 0.5, rng.randint(1, n + 1)])
         cases.append({"kind": "net", "n": n, "edges": edges, "agents": agents, "ops": ops})
     return cases
 
@@ -340,6 +359,21 @@ def _run_net(case):
 
     obs, failures = [], []
     for i, op in enumerate(case["ops"]):
+        kind = op[0]
+        if kind == "contents":
+            try:
+                form = op[2] if len(op) > 2 else "list"
+                res = g.get_cell_list_contents(_as_form(op[1], form)) if i % 2 else list(g.iter_cell_list_contents(_as_form(op[1], form)))
+                got = [a._verif_id for a in res]
+                obs.append(_obs_agents(got))
+                expa = sorted(a for c in op[1] for a in where.get(c, []))
+                if sorted(got) != expa:
+                    failures.append({"key": "C09/NetworkGrid/cell_list_contents/wrong-agents", "op": i,
+                                     "what": f"NetworkGrid.get_cell_list_contents({op[1]} given as {form}): got {sorted(got)}, occupants are {expa}"})
+            except Exception as e:  # noqa: BLE001
+                obs.append([-1, 99])
+                failures.append({"key": "C09/NetworkGrid/contents/unexpected-exception", "op": i, "what": f"{op} raised {type(e).__name__}: {e}"})
+            continue
         kind, node, ic, r = op
         try:
             if kind == "nbhd":
@@ -453,7 +487,8 @@ def run_impl(case):
                                              "what": f"get_neighbors({(x, y)}, moore={moore}, include_center={ic}, radius={r}) on {w}x{h} torus={torus}: got agents {sorted(got)}, the agents in range are {expa}"})
             elif kind == "contents":
                 cl = [tuple(c) for c in op[1]]
-                got = [a._verif_id for a in g.get_cell_list_contents(cl)]
+                form = op[2] if len(op) > 2 else "list"
+                got = [a._verif_id for a in g.get_cell_list_contents(_as_form(cl, form))]
                 obs.append(_obs_agents(got))
                 expa = sorted(a for c in cl for a in where.get(c, []))
                 if sorted(got) != expa:
@@ -502,7 +537,8 @@ def coq_case(case):
         for aid, node in case["agents"]:
             nodes.setdefault(node, []).append(aid)
         cs = L.lst([L.pair(L.z(n), L.zlist(v)) for n, v in nodes.items()])
-        ops = [f"{'NNbhd' if op[0] == 'nbhd' else 'NNbrs'} {L.z(op[1])} {L.b(op[2])} {L.z(op[3])}" for op in case["ops"]]
+        ops = [(f"NContents {L.zlist(op[1])}" if op[0] == "contents" else
+                f"{'NNbhd' if op[0] == 'nbhd' else 'NNbrs'} {L.z(op[1])} {L.b(op[2])} {L.z(op[3])}") for op in case["ops"]]
         return f"CNet {G} {cs} {L.lst(ops)}"
     return "COrth " + _coq_case_orth(case)
 
